@@ -185,8 +185,10 @@ class Trivia:
 COMMENTS = ["# note", "# else:", "#", "# def g(): pass", "#: finally:", "# \u00e9 class K: ...", "#!", "# except E: \\"]
 
 
-def layout(module, plain=False, deco_rng=None, ret_comps=False, trivia=None):
-    """deco_rng: when given (C04 only; such files are not executed by CPython), defs and classes randomly get decorator
+def layout(module, plain=False, deco_rng=None, ret_comps=False, trivia=None, defmarks=None):
+    """defmarks: opt-in {id(def/class statement tuple given to layout): (is_async, n_decorators)}: that definition is printed
+    async / with that many decorator lines (the second one spans two lines) deterministically; files are analysed, never executed.
+    deco_rng: when given (C04 only; such files are not executed by CPython), defs and classes randomly get decorator
     lines above their header and defs are randomly async; the statement id stays the header line.
     trivia: a Trivia (opt-in, default none): comments / blank lines / continuations around every clause header and block; the
     statement id stays the FIRST line of the header, the end line stays the last statement's line (what python3 ast reports)."""
@@ -232,6 +234,14 @@ def layout(module, plain=False, deco_rng=None, ret_comps=False, trivia=None):
         return out
 
     def decorate(ind, is_def, s=None):
+        if defmarks is not None and s is not None and id(s) in defmarks:
+            is_async, n_deco = defmarks[id(s)]
+            for i in range(n_deco):
+                d = ["@staticmethod" if ind else "@cache", "@dec(1,", "@wraps(len)"][i % 3]
+                lines.append(IND * ind + d)
+                if d.endswith(","):
+                    lines.append(IND * ind + "     2)")
+            return "async " if (is_def and is_async) else ""
         tk = trivia.pick('deco', s) if trivia is not None else None
         if deco_rng is None and tk is None:
             return ""
@@ -888,3 +898,147 @@ def routing_frame_bodies():
                 any(FRAMES[n][1] is True or n == 'loop_else_hole' for n in seq):
             out.append(body)
     return out
+
+
+# ---------------------------------------------------------------------------------------
+# dead tails: the code after a terminator ENDS with a multi-line statement (C02: the finding has to reach its last line)
+# ---------------------------------------------------------------------------------------
+DEAD_TAILS = ('def', 'def_deep', 'def_term', 'def_in_def', 'async_def', 'deco_def', 'deco_async_def', 'class_method',
+              'class_attr_method', 'class_two_methods', 'class_method_attr', 'deco_class', 'class_deco_method',
+              'if_else', 'if_elif', 'for_else', 'while', 'with', 'try_exc_fin', 'try_fin', 'match', 'with_def')
+DEAD_TAIL_POSITIONS = ('body', 'if_arm', 'else_arm', 'try_body', 'handler', 'finally', 'with_body', 'case', 'while_body',
+                       'for_if', 'loop_else', 'after_if_all_term')
+DEAD_TAIL_CONTEXTS = ('function', 'method', 'async_function', 'nested_function', 'async_method')
+DEAD_TAIL_PREFIXES = ('only', 'simple_first', 'def_first')
+
+
+def dead_tail(kind, fresh, marks):
+    """The statements of one dead tail; its LAST statement spans several lines.  marks collects the async/decorator spellings."""
+    def d(body, is_async=False, n_deco=0):
+        s = ('def', 0, fresh(), body)
+        if is_async or n_deco:
+            marks[id(s)] = (is_async, n_deco)
+        return s
+
+    def k(body, n_deco=0):
+        s = ('class', 0, fresh(), body)
+        if n_deco:
+            marks[id(s)] = (False, n_deco)
+        return s
+    if kind == 'def':
+        return d([_S(), _S()])
+    if kind == 'def_deep':
+        return d([_S(), ('if', 0, [_S()], [], [_S(), _S()])])
+    if kind == 'def_term':
+        return d([_S(), ('return', 0)])
+    if kind == 'def_in_def':
+        return d([_S(), d([_S(), _S()])])
+    if kind == 'async_def':
+        return d([_S(), _S()], True)
+    if kind == 'deco_def':
+        return d([_S(), _S()], False, 2)
+    if kind == 'deco_async_def':
+        return d([_S(), ('with', 0, [_S()])], True, 1)
+    if kind == 'class_method':
+        return k([d([_S(), _S()])])
+    if kind == 'class_attr_method':
+        return k([_S(), d([_S(), _S()])])
+    if kind == 'class_two_methods':
+        return k([d([_S()]), d([_S(), ('return', 0)], True)])
+    if kind == 'class_method_attr':
+        return k([d([_S(), _S()]), _S()])
+    if kind == 'deco_class':
+        return k([_S(), d([_S(), _S()])], 2)
+    if kind == 'class_deco_method':
+        return k([d([_S(), _S()], False, 1)])
+    if kind == 'if_else':
+        return ('if', 0, [_S()], [], [_S(), _S()])
+    if kind == 'if_elif':
+        return ('if', 0, [_S()], [(0, [_S(), _S()])], None)
+    if kind == 'for_else':
+        return ('for', 0, [_S()], [_S(), _S()])
+    if kind == 'while':
+        return ('while', 0, [_S(), _S()], None)
+    if kind == 'with':
+        return ('with', 0, [_S(), _S()])
+    if kind == 'try_exc_fin':
+        return ('try', 0, [_S()], [(0, [_S()])], None, [_S(), _S()])
+    if kind == 'try_fin':
+        return ('try', 0, [_S()], [], None, [_S(), _S()])
+    if kind == 'match':
+        return ('match', 0, [(0, [_S()]), (0, [_S(), _S()])])
+    if kind == 'with_def':
+        return ('with', 0, [_S(), d([_S(), _S()])])
+    raise AssertionError(kind)
+
+
+def dead_tail_place(pos, term, tail):
+    """Function body with [term] + tail at the given position (None when the terminator is illegal there); the tail is the END
+    of its statement list, live code follows the enclosing statement."""
+    dead = [(term, 0)] + tail
+    loop_term = term in ('break', 'continue')
+    if pos in ('while_body', 'for_if'):
+        if pos == 'while_body':
+            return [('while', 0, [_S()] + dead, None), _S()]
+        return [('for', 0, [('if', 0, dead, [], None), _S()], [_S()]), _S()]
+    inner = {
+        'body': lambda: [_S()] + dead,
+        'if_arm': lambda: [('if', 0, [_S()] + dead, [], [_S()]), _S()],
+        'else_arm': lambda: [('if', 0, [_S()], [(0, [_S()])], dead), _S()],
+        'try_body': lambda: [('try', 0, dead, [], None, [_S()]), _S()],
+        'handler': lambda: [('try', 0, [_S()], [(0, [_S()] + dead)], None, None), _S()],
+        'finally': lambda: [('try', 0, [_S()], [(0, [_S()])], None, dead), _S()],
+        'with_body': lambda: [('with', 0, dead), _S()],
+        'case': lambda: [('match', 0, [(0, [_S()]), (0, dead)]), _S()],
+        'loop_else': lambda: [('while', 0, [_S()], dead), _S()],
+        'after_if_all_term': lambda: [('if', 0, [(term, 0)], [(0, [_S(), (term, 0)])], [(term, 0)])] + tail,
+    }[pos]()
+    if loop_term:
+        # the whole composition sits in a loop body
+        return [('for', 0, inner, None), _S()]
+    return inner
+
+
+def dead_tail_modules(per_module=30, sample=None, rng=None):
+    """Every terminator kind x every tail kind x every context (position and prefix rotating) and x every position (context and
+    prefix rotating).  Returns module records {ast, lines, dead_tail: [labels]}.  sample: number of cases kept (needs rng)."""
+    names = [7000]
+
+    def fresh():
+        names[0] += 1
+        return names[0]
+    combos = []
+    i = 0
+    for term in TERMS:
+        for tk in DEAD_TAILS:
+            for ci, ctx in enumerate(DEAD_TAIL_CONTEXTS):
+                i += 1
+                combos.append((term, tk, ctx, DEAD_TAIL_POSITIONS[(i + ci) % len(DEAD_TAIL_POSITIONS)], DEAD_TAIL_PREFIXES[i % 3]))
+            for pi, pos in enumerate(DEAD_TAIL_POSITIONS):
+                i += 1
+                combos.append((term, tk, DEAD_TAIL_CONTEXTS[(i + pi) % len(DEAD_TAIL_CONTEXTS)], pos, DEAD_TAIL_PREFIXES[(i + pi) % 3]))
+    combos = sorted(set(combos))
+    if sample is not None and rng is not None and len(combos) > sample:
+        combos = rng.sample(combos, sample)
+    mods = []
+    for off in range(0, len(combos), per_module):
+        marks, module, labels = {}, [], []
+        for (term, tk, ctx, pos, prefix) in combos[off:off + per_module]:
+            tail = [dead_tail(tk, fresh, marks)]
+            if prefix == 'simple_first':
+                tail = [_S()] + tail
+            elif prefix == 'def_first':
+                tail = [dead_tail('def', fresh, marks)] + tail
+            body = dead_tail_place(pos, term, tail)
+            f = ('def', 0, fresh(), body)
+            if ctx.startswith('async'):
+                marks[id(f)] = (True, 0)
+            if ctx in ('method', 'async_method'):
+                f = ('class', 0, fresh(), [_S(), f])
+            elif ctx == 'nested_function':
+                f = ('def', 0, fresh(), [_S(), f, _S()])
+            module.append(f)
+            labels.append("%s/%s/%s/%s/%s" % (term, tk, ctx, pos, prefix))
+        ast, lines = layout(module, defmarks=marks)
+        mods.append({"ast": ast, "lines": lines, "dead_tail": labels})
+    return mods
